@@ -85,7 +85,8 @@ OpJs(a) ==
 RECURSIVE PathJs(_, _)
 PathJs(h, i) == IF i > Len(h) THEN <<>> ELSE OpJs(h[i]) \o <<"; ">> \o PathJs(h, i + 1)
 Js(p, h, a) ==
-    <<"var r = new RegExp(", Lit(StrV(Pats[p][1])), ",", Lit(StrV(Pats[p][2])), "); ">> \o PathJs(h, 1) \o <<"var x = ">> \o OpJs(a) \o <<"; [x, r.lastIndex]">>
+    <<"G(function(){ var r = new RegExp(", Lit(StrV(Pats[p][1])), ",", Lit(StrV(Pats[p][2])), "); ">> \o PathJs(h, 1) \o <<"var x = ">> \o OpJs(a)
+    \o <<"; return [x, r.lastIndex]; })">>
 
 Out(r) == [thr |-> "", v |-> [t |-> "arr", a |-> <<r.v, r.R.li>>], log |-> <<>>]
 
